@@ -18,13 +18,17 @@ func c33Sealed(c *ev.Ctx, i int) {
 	r := c.Rand("sealed", i)
 	n := 3 + r.Intn(3)
 	plans := cons.RandomPlans(r, 2, -n, false, cons.CheatNone)
-	for _, p := range plans {
+	for pi, p := range plans {
 		for k := range p.Lag {
-			p.Lag[k] = 0
+			if pi == 0 || i%2 == 0 {
+				p.Lag[k] = 0
+			} else if k == i%n {
+				p.Lag[k] = 0.93 // new epoch: one validator far behind - its rare events are roots of several frames, most of them decided already
+			}
 		}
 	}
 	plans[0].SealAt = idx.Frame(1 + r.Intn(3))
-	cfg := &cons.GenCfg{Plans: plans, EventsPer: 14 * n, MinParents: 1, MaxParents: 3}
+	cfg := &cons.GenCfg{Plans: plans, EventsPer: 22 * n, MinParents: 1, MaxParents: 3}
 	d, _, err := cons.Generate(r, cfg)
 	if d == nil || len(d.Epochs) == 0 || !d.Epochs[0].Sealed {
 		c.Count("sealed_dags_unusable", 1)
@@ -89,7 +93,32 @@ func c33Sealed(c *ev.Ctx, i int) {
 				c.Count("queries_compared_after_a_consensus_seal", 1)
 			}
 		}})
-	_ = t
+	// at the end: every frame of the new epoch, not only the newest
+	if !bad && t.Inst != nil && t.Inst.Epoch() == newEpoch {
+		for f, want := range rootsOf {
+			got := map[string]bool{}
+			for _, g := range t.Inst.Store.GetFrameRoots(f) {
+				got[fmt.Sprintf("%d/%s", g.Slot.Validator, g.ID.Hex())] = true
+			}
+			for k := range want {
+				if !got[k] {
+					c.Violation("root-registry-differs-from-model", map[string]interface{}{"case": i, "cache": fmt.Sprintf("%+v", scfg.Cache),
+						"why": fmt.Sprintf("epoch %d frame %d (last decided frame %d): root %s was registered by its event (a root of every frame above its self-parent's, up to its own) and is missing", newEpoch, f, t.Inst.Store.GetLastDecidedFrame(), k)})
+					bad = true
+					break
+				}
+			}
+			if bad {
+				break
+			}
+			if len(got) != len(want) {
+				c.Violation("root-registry-differs-from-model", map[string]interface{}{"case": i, "why": fmt.Sprintf("epoch %d frame %d: registry holds %d roots, events registered %d", newEpoch, f, len(got), len(want))})
+				bad = true
+				break
+			}
+			c.Count("frames_compared_at_the_end_of_a_real_run", 1)
+		}
+	}
 	c.Eval(1)
 	if !bad {
 		c.Nontrivial(ev.Hash("sealed", d.FP))
